@@ -137,6 +137,10 @@ def mixing_sites(f):
         if isinstance(n, ast.Call) and isinstance(n.func, ast.Attribute) and n.func.attr in LOG:
             for x in ast.walk(n):
                 logs.add(id(x))
+        if isinstance(n, ast.Raise):
+            # the text of an exception: computed only when the call fails anyway, no returned value depends on it
+            for x in ast.walk(n):
+                logs.add(id(x))
     for n in walk_no_nested(f.node):
         if not isinstance(n, ast.Call) or id(n) in logs:
             continue
